@@ -6,15 +6,24 @@ real parser produces and must agree with the independent Python oracle's structu
 oracle judges every tree of the sweep: structure, equality with CPython's positions for the kinds CPython
 positions, and `source[range] == construct text` rules for the others.
 """
+import ast
+import io
+import keyword
 import os
 import re
 import sys
+import tokenize
+import warnings
+from concurrent.futures import ProcessPoolExecutor
 
 sys.path.insert(0, os.path.dirname(os.path.dirname(os.path.abspath(__file__))))
 import core
 import pyref
 import refsweep
 from core import Stream, hexs, unhex
+from props import c11          # generators of the expression fragment the Lean reference parser covers
+
+warnings.simplefilter("ignore")
 
 ID = "C02"
 DESIGN_REF = "DESIGN.md section 5, C02; design/C02.md; design/REFTOOLS.md"
@@ -358,14 +367,20 @@ def judge(src, mode, out, ref, want_ref=True):
         return "implementation " + out
     b = src.encode("utf-8")
     tree = pyref.sexp(out)
+    rt = pyref.sexp(ref) if want_ref and ref is not None else None
+    return judge_trees(b, tree, rt)
+
+
+def judge_trees(b, tree, rt):
+    """structural rules + extent rules on the implementation's tree, then every positioned range against the
+    reference tree `rt` (None: no reference comparison)"""
     problems = []           # (description, key or None)
     for item in structural(b, tree):
         problems.append((f"structure: {item}", classify_struct(item)))
     for item, node, parent, why in extents(b, tree):
         problems.append((f"{item} {node[1]} = {b[node[1][0]:node[1][1]][:50]!r}: {why}", classify_extent(item, node, parent, b)))
-    if want_ref and ref is not None:
+    if rt is not None:
         impl = pyref.strip_ranges(tree, pyref.UNPOSITIONED_KINDS)
-        rt = pyref.sexp(ref)
         ds = [d for d in refsweep.all_diffs(impl, rt, limit=400) if d["path"].endswith(".range")]
         _attach_literal(ds, impl, rt)
         for d in ds:
@@ -385,6 +400,38 @@ def judge(src, mode, out, ref, want_ref=True):
     return problems[0][0] + f" [known:{','.join(keys)}]"
 
 
+def _drop_ctx(t):
+    """the tree without its `ctx` fields (pvh_c02 strips them: the Lean model has no expression context)"""
+    if isinstance(t, str):
+        return t
+    if isinstance(t, list):
+        return [_drop_ctx(x) for x in t]
+    return (t[0], t[1], [(f, _drop_ctx(v)) for f, v in t[2] if f != "ctx"])
+
+
+_RX_VERDICT = {}        # (request, implementation answer) -> verdict; filled in parallel by pre_build (memo only)
+
+
+def judge_rexpr(req, out):
+    """`rexpr <hex src> <spans>`: `out` is the ranged tree of the BODY of the Expression-mode parse.  Same rules
+    as `judge`: structure, extents of the kinds CPython does not position, CPython's positions for the others."""
+    if out.startswith("(err") or out == "stale-tokens":
+        return None                     # rejected text / an attachment that is not this build's: not the property's business
+    if not out.startswith("(Expr"):
+        return "implementation " + out[:60]
+    src = unhex(req.split()[1]).decode("utf-8")
+    tree = pyref.sexp(out)
+    ref = refsweep.reference(src, "e", None, ranges=True)
+    rt = None
+    if ref is not None:
+        rt = _drop_ctx(dict(pyref.sexp(ref)[2])["body"])
+    return judge_trees(src.encode("utf-8"), tree, rt)
+
+
+def _judge_chunk(pairs):
+    return [judge_rexpr(r, o) for r, o in pairs]
+
+
 def oracle(req, out):
     ws = req.split()
     if ws[0] == "parse":
@@ -394,6 +441,11 @@ def oracle(req, out):
         else:
             ref = None if extra else refsweep.reference(src, mode, None, ranges=True)
         return judge(src, mode, out, ref, want_ref=not extra)
+    if ws[0] == "rexpr":
+        k = (req, out)
+        if k not in _RX_VERDICT:
+            _RX_VERDICT[k] = judge_rexpr(req, out)
+        return _RX_VERDICT[k]
     if ws[0] == "rangesok":
         # the Python side of the agreement: structural verdict on the tree carried by the request
         src = unhex(ws[2]).decode("utf-8")
@@ -417,6 +469,8 @@ def classify(req, impl_out, model_out, failure):
         lean = model_out[4:] if model_out and model_out.startswith("bad ") else ""
         if py != lean:
             return None
+    if ws[0] == "rexpr" and impl_out != model_out:
+        return None     # a listed shape is only accepted when the ranged model reproduces the tree exactly
     if failure:
         m = re.search(r"\[known:([^\]]+)\]$", failure)
         if m:
@@ -427,6 +481,702 @@ def classify(req, impl_out, model_out, failure):
 # ------------------------------------------------------------------------------------------------ streams
 
 _LEAN_ITEMS = []
+
+# ------------------------------------------------------------------------------------------------ ranged parser model
+#
+# Request `rexpr <hex src> <spans>`: `<spans>` = byte spans of the real lexer's tokens (pvh_c02 `lexspans e`), the
+# attachment from which the Lean model `PV.C02.parseRExpression` (ranged twin of the reference expression parser)
+# computes every range.  pvh_c02 answers the ranged tree of the real parse, drv_c02 the model's: byte-identical.
+# The oracle judges the real tree exactly like the sweeps (structure, extents, CPython's positions).
+
+RX_HARNESS = {"bin": "pvh_c02", "features": "all-ranges"}
+EXTRA_HARNESS = [RX_HARNESS]
+
+# the listed findings that are expressions (the model reproduces each deviation; the oracle names it)
+RX_FINDING_EXPRS = ["f(x for x in y)", "f( x for x in y )", "(y := (x))", "[y := (x)]", "lambda: 1", "lambda a=1: a",
+                    "'a' f'{b}' 'c'", "f'{a}' f'{b:{c}}'"]
+
+RX_LAYOUT = r"""
+été + 'ü' * ñ
+f(é, ü=1)
+'😀'[é]
+日本.ß(Ω)['€']
+'é' 'ü' "日本"
+f'é{ü}日本{ñ!r:>{ß}}€'
+f'{é}' 'ü' f'{ñ}'
+f'😀{é}😀{ü=}'
+[é for é in 日本 if ü]
+lambda é, ü=ñ, *ß, Ω, **日本: é
+{'é': ü, **ñ}
+é if ü else ñ
+(é := ü)
+é.ü.ñ
+é[ü:ñ, ::ß]
+'¡' + é # ü
+f(日本 for 日本 in é)
+'é'.ü('😀', ß='€')
+((a))
+(a) + (b)
+((a) + b) * (c)
+(a)(b)
+(a)[b]
+(a).b
+((a).b)(c)[(d)]
+f((a))
+f((a), (b))
+f(k=(a))
+f(*(a))
+f(**(a))
+[(a)]
+[(a), (b)]
+((a), (b))
+((a),)
+{(a): (b)}
+{(a)}
+{**(a)}
+(a) if (b) else (c)
+not (a)
+-(a)
+(a) < (b) < (c)
+(a) and (b)
+(a) or (b) or (c)
+lambda: (a)
+lambda a=(b): (a)
+(lambda: a)
+[(a) for (b) in (c) if (d)]
+((a) for (b) in (c))
+{(a): (b) for (c) in (d)}
+x[(a):(b):(c)]
+x[(a), (b)]
+x[(a, b)]
+(yield (a))
+(yield from (a))
+await (a)
+(await a)
+((a := b))
+[*(a)]
+(*a, (b))
+(a) ** (b)
+((a, b))
+(((a), b), c)
+( a )
+(  (  a  )  )
+(a ) + ( b)
+f ( a )
+x [ a ]
+(())
+([])
+({})
+('a')
+('a' 'b')
+('a') + (f'{b}')
+(f'{(a)}')
+f'{((a))}'
+f'{ (a) }'
+f'{(a)!r}'
+f'{(a):>{(b)}}'
+(a)(b)(c)
+(a.b)(c)
+(a[b])(c)
+(a(b))[c]
+(a)(b).c
+((a)(b))
+(a) @ (b) @ (c)
+((a) if b else c)
+(a), (b)
+(a),
+((a)), ((b))
+(a) is not (b)
+(a) not in (b)
+lambda a: a
+lambda a, b: a
+lambda a,: a
+lambda a, /: a
+lambda a, /, b: a
+lambda a, /, b, *, c: a
+lambda a=1, /, b=2, *c, d, e=3, **f: a
+lambda *a: a
+lambda *a,: a
+lambda *, a: a
+lambda *, a,: a
+lambda *, a=1, b: a
+lambda **k: k
+lambda **k,: k
+lambda a, *b, **k: a
+lambda a, **k: a
+lambda a, *, b, **k: a
+lambda a=1, *b, c=2, **k: a
+lambda  a ,  b = 1 : a
+lambda a, /, *, b: a
+lambda a, /, **k: a
+lambda a, b=(1, 2), *c: a
+lambda a=lambda b=1: b: a
+lambda:0
+lambda : 0
+lambda*a:a
+lambda**k:k
+lambda a, /, b=1, *, c=2, **d,: a
+lambda a, b,: a
+lambda a=1,: a
+lambda a, /,: a
+lambda a, *b,: a
+lambda a, *, b,: a
+lambda: lambda: lambda a: a
+lambda: (yield)
+lambda *a, **k: (a, k)
+[a for a in b]
+[a for a in b for c in d]
+[a for a in b if c if d for e in f if g]
+[a async for a in b]
+[a for a in b async for c in d]
+[a for a, in b]
+[a for a, b in c]
+[a for (a, b) in c]
+[a for a, b, in c]
+[a for [a, b] in c]
+[a for *a, b in c]
+[a for a.b in c]
+[a for a[0] in c]
+{a for a in b}
+{a: b for a, b in c}
+{a: b for a in b if c}
+(a for a in b)
+(a for a in b if c)
+f(a for a in b)
+f( a for a in b )
+f((a for a in b))
+f(a for a in b if c)
+f(a async for a in b)
+f(a for a, in b)
+[[a for a in b] for c in d]
+[a for a in [b for b in c]]
+[a for a in b if [c for c in d]]
+[a for a in b if c or d]
+[a for a in (b if c else d)]
+[(a, b) for a in c]
+[a if b else c for d in e]
+[lambda: a for a in b]
+[a for a in b if (lambda: c)]
+[a for a in b if not c]
+[a for a in b if c if not d]
+{a async for a, in b if c}
+{a: b async for a, b, in c if d if e}
+(a async for a in b async for c in d)
+a[::]
+a[1:2, ::3]
+a[b,]
+a[*b]
+a[*b,]
+a[*b, c]
+a[:]
+a[1:]
+a[:2]
+a[::3]
+a[1:2:3]
+a[1::3]
+a[:2:3]
+a[b:c, d]
+a[b, c:d]
+a[(b, c)]
+a[b][c]
+a[b:c][d:e]
+a[ b : c ]
+a[b :c: d]
+a[:,:]
+a[...]
+a[..., :]
+a[b := 1]
+a[lambda: 1]
+a[b if c else d]
+a[b if c else d:e]
+a[-1]
+a[-1:]
+a[b, c]
+a[b, c,]
+a[:, ]
+a[::, ::]
+[*a]
+[*a, b]
+(*a,)
+(*a, b)
+*a,
+*a, b
+{*a}
+{*a, *b}
+f(*a)
+f(*a, *b)
+f(a, *b, c)
+f(*a, k=1)
+f(k=1, *a)
+f(**a, **b)
+f(*a or b)
+f(* a)
+f(** a)
+[* a]
+(yield)
+(yield a)
+(yield a, b)
+(yield a,)
+(yield *a, b)
+(yield from a)
+( yield )
+(yield(a))
+((yield))
+[(yield)]
+f((yield))
+(yield) + 1
+(yield lambda: a)
+(yield a if b else c)
+(yield (yield))
+(yield from (yield))
+f'{a}'
+f'{a!r}'
+f'{a:b}'
+f'{a!s:b}'
+f'{a:{b}}'
+f'{a:{b}.{c}}'
+f'{a:>{b}{c}}'
+f'{a=}'
+f'{a = }'
+f'{a=!r}'
+f'{a=:>5}'
+f'{ a }'
+f'{a }{ b}'
+f'x{a}y{b}z'
+f'{{{a}}}'
+f'{{a}}'
+f'{a}{{'
+f'{a + b}'
+f'{a[b]}'
+f'{a.b(c)}'
+f'{a, b}'
+f'{[a for a in b]}'
+f'{ {a: b} }'
+f'{(lambda: a)}'
+f'{(a := b)}'
+f'{a if b else c}'
+f'{f"{a}"}'
+f'{f"{a:{b}}"}'
+f"{'a'}"
+f"{a['b']}"
+f'{a!r:{b}>{c}}'
+f'{a:{b!r}}'
+f'{a:{b:c}}'
+f'\n{a}'
+f'\x41{a}\t{b}'
+f'é{a}ü{b}'
+f'{a}' f'{b}'
+'a' f'{b}'
+f'{a}' 'b'
+'a' 'b' f'{c}' 'd' f'{e}'
+f'a' 'b'
+f'' f''
+'' f'{a}' ''
+rf'{a}\d'
+fr'\{a}'
+Rf'{a}'
+F'{a}'
+fR'{a}'
+rf'{a:\d}'
+f'''{a}'''
+f'{a}{b}{c}'
+f'{a}' + f'{b}'
+f(f'{a}', f'{b}')
+[f'{a}' 'b', 'c' f'{d}']
+f'{a:{b}}' 'c' f'{d!r:{e}}'
+f'{a=}' f'{b = !s}'
+f'{a:>10}' '' f'{b:<{c}}'
+'a' 'b'
+'a' "b" '''c'''
+b'a' b'b'
+'a' 'b' + 'c' 'd'
+f('a' 'b', 'c')
+['a' 'b']
+'a' 'b'[0]
+('a' 'b').c
+'é' 'ü'
+'😀' '日本'
+u'a' 'b'
+r'a' 'b' R'c'
+a if b else c
+a if b else c if d else e
+a.b.c
+a.b(c).d[e]
+a(b)(c)
+a()()
+f()
+f(a)
+f(a,)
+f(a, b)
+f(a, k=1)
+f(k=1)
+f(k=1,)
+f(k = 1)
+f(k=a if b else c)
+f(**k)
+f(a, *b, k=1, **c)
+f( k = 1 , **c )
+f(k=1, l=2)
+f(a, k=lambda: 1)
+f(k=(yield))
+f(k=[a for a in b])
+1 if 2 else 3
+a<b
+a is not b
+a not in b
+a is  not b
+a not  in b
+not a
+not not a
+- a
+~ a
+a**b
+a**-b
+a @ b
+await a
+await a.b
+await a(b)
+await a[b]
+...
+None
+True
+1
+1.5
+1j
+'s'
+b's'
+()
+(a,)
+a,
+a, b
+a, b,
+(a, b)
+[ ]
+{ }
+( )
+[a]
+[a,]
+[a, b,]
+{a}
+{a,}
+{a: b}
+{a: b,}
+{a: b, c: d}
+{**a}
+{**a,}
+{a: b, **c}
+{**a, b: c}
+{ a : b }
+{ ** a }
+""".strip("\n").split("\n")
+
+RX_LAYOUT_ML = [
+    "[\n a, # c\n b]", "f(\n x,\n y=1,\n)", "{\n 1: 2, # c\n **d}", "(a +\n b)", "(\n a\n)", "(  # c\n a,\n b,\n)",
+    "[a\n for a in b\n if c\n]", "f(a\n for a in b)", "f(\n a for a in b\n)", "x[\n 1:2,\n ::3\n]",
+    "(lambda\n a,\n b=1\n : a)", "{a,\n b}", "(yield\n a)", "(a if\n b else\n c)", "f(**\n k)", "(a\n .b\n .c)", "(not\n a)",
+    "(a\n <\n b\n <= c)", "(a and\n b or\n c)", "(-\n a)", "(await\n a)", "(a :=\n 1)", "f(\n)", "[\n]", "{\n}", "(\n)",
+    "(a)\n", "a # c", "a  \n\n", "a\n# c\n", "(a, # é\n b)", "[ # 日本\n 'ü', # 😀\n é]", "f(k # c\n =\n 1)",
+    "(lambda\n a, # c\n /,\n b=1, *c,\n d, **e\n : a)", "(lambda # c\n : a)", "(lambda *, # c\n a: a)",
+    "[a for a, # c\n in b]", "{a: b\n for a in c\n if d # c\n if e}", "(a\n async for a\n in b)",
+    "x[a, # c\n]", "x[\n:\n:\n]", "(\n(\na\n)\n)", "(a, (\n b), c)", "f(a)(\n b)[\n c]", "(a\n)(b)", "(a)\\\n+ b", "a + \\\n b",
+    "f'''\n{a}\n'''", "f'''a\n{b}\nc{d}\n'''", "f'''{a}\n''' f'{b}'", "f'''é\n{a}''' 'ü'", 'f"""\n\n{a}{b}\n"""',
+    "f'''{\na\n}'''", "f'''{a:\n}'''", "f'''\n\n{a=}\n{b!r:>{c}}'''", "rf'''\\d\n{a}\\\n'''", "(f'{a}'\n f'{b}')",
+    "('a'\n f'{b}'\n 'c')", "('a' # c\n 'b')", "('''a\nb''' 'c')", "'''é\nü''' + ñ", "'''a\n''' f'''{b}\n''' '''\nc'''",
+    "f'''{a}''' f'''\n{b}''' f'{c}'", "[f'''\n{a}''',\n f'{b}']", "f'''\n{f'{a}'}\n'''", "f'''{a\n+ b}'''", "f'''😀\n日本{é}'''",
+]
+
+
+class _no_c11_finding_filter:
+    """C11's generators keep C11's (unparse) finding shapes out of its streams; ranges do not depend on them"""
+
+    def __enter__(self):
+        self.saved = c11.finding_shapes
+        c11.finding_shapes = lambda tree: set()
+
+    def __exit__(self, *a):
+        c11.finding_shapes = self.saved
+
+
+def _rx_ok(s):
+    """inside the domain of the Lean tokenizer, accepted by CPython (the reference), known characters only"""
+    if not s or len(s) > 2000 or not c11.in_lexer_domain(s):
+        return False
+    t = c11.py_tree(s)
+    return t is not None and c11.tree_in_domain(t)
+
+
+def _expr_spans(tree, b):
+    starts = pyref.line_starts(b)
+    spans = set()
+    for n in ast.walk(tree):
+        if isinstance(n, ast.expr) and getattr(n, "end_lineno", None) is not None:
+            a = starts[n.lineno - 1] + n.col_offset
+            e = starts[n.end_lineno - 1] + n.end_col_offset
+            if a < e:
+                spans.add((a, e))
+    return sorted(spans, key=lambda r: (r[0], -r[1]))
+
+
+def paren_variants(src, styles=(("(", ")"), ("( ", " )"), ("(\n ", " # c\n)"))):
+    """`src` with one redundant pair of parentheses around one sub-expression occurrence (CPython's positions pick
+    the slice), for every occurrence and style, plus one variant with every admissible occurrence wrapped at once;
+    only variants CPython still reads as the same tree"""
+    tree = c11.py_tree(src)
+    if tree is None:
+        return []
+    base = ast.dump(tree)
+    b = src.encode("utf-8")
+    out, good = [], []
+
+    def same(v):
+        t = c11.py_tree(v)
+        return t is not None and ast.dump(t) == base
+    for a, e in _expr_spans(tree, b):
+        ok = False
+        for k, (o, c) in enumerate(styles):
+            try:
+                v = (b[:a] + o.encode() + b[a:e] + c.encode() + b[e:]).decode("utf-8")
+            except UnicodeDecodeError:
+                break
+            if same(v):
+                out.append(v)
+                ok = ok or k == 0
+        if ok:
+            good.append((a, e))
+    if len(good) > 1:
+        ins = {}
+        for a, e in good:
+            ins.setdefault(a, [0, 0])[1] += 1
+            ins.setdefault(e, [0, 0])[0] += 1
+        parts, last = [], 0
+        for p in sorted(ins):
+            parts.append(b[last:p] + b")" * ins[p][0] + b"(" * ins[p][1])
+            last = p
+        parts.append(b[last:])
+        v = b"".join(parts).decode("utf-8")
+        if same(v):
+            out.append(v)
+    return out
+
+
+def trivia_variants(src, singles=True):
+    """blanks / line break / comment + line break after every `(` `[` `{` `,` and before every `)` `]` `}` that
+    lies inside brackets (string tokens, hence f-string bodies, are never touched)"""
+    tree = c11.py_tree(src)
+    if tree is None:
+        return []
+    base = ast.dump(tree)
+    try:
+        toks = list(tokenize.generate_tokens(io.StringIO(src).readline))
+    except (tokenize.TokenError, IndentationError, SyntaxError):
+        return []
+    lines = src.split("\n")
+    ls = [0]
+    for ln in lines:
+        ls.append(ls[-1] + len(ln) + 1)
+    depth, pos = 0, []
+    for t in toks:
+        if t.type != tokenize.OP:
+            continue
+        if t.string in "([{":
+            depth += 1
+            pos.append(ls[t.end[0] - 1] + t.end[1])
+        elif t.string in ")]}":
+            pos.append(ls[t.start[0] - 1] + t.start[1])
+            depth -= 1
+        elif t.string == "," and depth > 0:
+            pos.append(ls[t.end[0] - 1] + t.end[1])
+    pos = sorted(set(pos))
+    if not pos:
+        return []
+
+    def put(where, text):
+        parts, last = [], 0
+        for p in where:
+            parts.append(src[last:p] + text)
+            last = p
+        return "".join(parts) + src[last:]
+    out = []
+    cands = [put(pos, " "), put(pos, "\n"), put(pos, "  # c\n  "), put(pos[::2], "\n\n"), put(pos[1::2], " # é 日本\n")]
+    if singles:
+        cands += [put([p], "\n# é\n") for p in pos]
+    for v in cands:
+        t = c11.py_tree(v)
+        if v != src and t is not None and ast.dump(t) == base:
+            out.append(v)
+    return out
+
+
+_MB_NAMES = {"a": "é", "b": "ü", "c": "ñ", "x": "été", "y": "日本", "z": "ß_", "foo": "Ω", "x1": "é1", "p": "日", "q": "本ü",
+             "k": "ñé", "d": "Ωß", "w": "üü"}
+_MB_IN_F = re.compile(r"(?<![\w'\"\\!.])(" + "|".join(sorted(_MB_NAMES, key=len, reverse=True)) + r")(?![\w'\"(=])")
+
+
+def multibyte_variant(src):
+    """identifiers replaced by multi-byte names (also inside f-string bodies, where every following offset of the
+    re-based field expressions moves); None when nothing changes or CPython rejects the result"""
+    try:
+        toks = list(tokenize.generate_tokens(io.StringIO(src).readline))
+    except (tokenize.TokenError, IndentationError, SyntaxError):
+        return None
+    lines = src.split("\n")
+    ls = [0]
+    for ln in lines:
+        ls.append(ls[-1] + len(ln) + 1)
+    parts, last = [], 0
+    for t in toks:
+        a, e = ls[t.start[0] - 1] + t.start[1], ls[t.end[0] - 1] + t.end[1]
+        new = None
+        if t.type == tokenize.NAME and not keyword.iskeyword(t.string) and t.string in _MB_NAMES:
+            new = _MB_NAMES[t.string]
+        elif t.type == tokenize.STRING:
+            m = re.match(r"[A-Za-z]*", t.string)
+            pre = m.group(0).lower()
+            if "f" in pre:
+                body = t.string[len(pre):]
+                new = t.string[:len(pre)] + _MB_IN_F.sub(lambda mo: _MB_NAMES[mo.group(1)], body)
+            elif "b" not in pre and t.string[len(pre):len(pre) + 3] not in ("'''", '"""'):
+                new = t.string[:len(pre) + 1] + "é😀" + t.string[len(pre) + 1:]
+        if new is not None and new != t.string:
+            parts.append(src[last:a] + new)
+            last = e
+    if not parts:
+        return None
+    v = "".join(parts) + src[last:]
+    return v if _rx_ok(v) else None
+
+
+def _variants_chunk(args):
+    kind, srcs = args
+    out = []
+    for s in srcs:
+        if kind == "paren":
+            out += paren_variants(s)
+        elif kind == "paren-all":
+            out += paren_variants(s, styles=(("(", ")"),))[-1:]
+        elif kind == "trivia":
+            out += trivia_variants(s)
+        elif kind == "trivia-all":
+            out += trivia_variants(s, singles=False)[:3]
+        elif kind == "mb":
+            v = multibyte_variant(s)
+            if v:
+                out.append(v)
+    return out
+
+
+def _par(kind, srcs, chunk=200):
+    jobs = [(kind, srcs[i:i + chunk]) for i in range(0, len(srcs), chunk)]
+    if len(jobs) <= 1:
+        return [x for j in jobs for x in _variants_chunk(j)]
+    with ProcessPoolExecutor(refsweep.NPROC) as ex:
+        return [x for r in ex.map(_variants_chunk, jobs) for x in r]
+
+
+def _uniq(srcs, seen=None):
+    seen = set() if seen is None else seen
+    out = []
+    for s in srcs:
+        if s not in seen and _rx_ok(s):
+            seen.add(s)
+            out.append(s)
+    return out
+
+
+def rx_families(ctx):
+    """[(stream name, kind, exhaustive, note, [source])] — deterministic in ctx.rng"""
+    q = ctx.quick
+    fams = []
+    probes = [s for _, m, s in PROBES if m == "e"]
+    corpus = _uniq(RX_FINDING_EXPRS + probes + c11.CORPUS + [s for k in c11.FINDING_PROBES for s in c11.FINDING_PROBES[k]]
+                   + RX_LAYOUT + RX_LAYOUT_ML)
+    fams.append(("corpus", "corpus", False,
+                 "the listed findings that are expressions, C11's regression corpus and finding probes, hand-written "
+                 "layouts: multi-byte names and strings, line breaks and comments inside brackets, redundant "
+                 "parentheses, every lambda parameter-list shape, comprehensions, slices, starred, yield, f-strings "
+                 "(nested specs, conversions, `=`, concatenation, raw, triple-quoted with line breaks)", corpus))
+    with _no_c11_finding_filter():
+        directed = _uniq(c11.directed_requests(full=True))
+    fams.append(("directed-slot-x-kind", "exhaustive", True,
+                 "every admissible (parent slot, child kind) pair with the child parenthesised and bare, every ordered "
+                 "operator pair on both nesting sides, every comparison operator x operand kind, every slot-in-slot "
+                 "nesting for six child kinds (C11's enumeration)", directed))
+    pv = _uniq(_par("paren", corpus, chunk=40))
+    pv += _uniq(_par("trivia", corpus, chunk=40), set(pv))
+    fams.append(("parens-and-trivia-everywhere", "directed", False,
+                 "every corpus text with one redundant pair of parentheses (three spacings, one with a line break and a "
+                 "comment) around each sub-expression occurrence CPython positions, all of them at once, and blanks / "
+                 "line breaks / comments after every opening bracket and comma and before every closing bracket", pv))
+    with _no_c11_finding_filter():
+        cs = c11.constant_sources(ctx.rng("rx-constants"), 600 if q else 4000)
+        consts = ["0", "1", "42", "1.5", "1e100", "2j", "'s'", '"d"', "b'b'", "'it\\'s'", "0xff", "1_0", "''", "'\\n'",
+                  "10 ** 20", "1e-7", "3.14j", "'é'", "u'u'", "'😀'", "'日本' 'ü'"] + cs[:200:7]
+        consts = [c for c in consts if " " not in c or c.startswith(("'", '"'))]
+        rs = c11.random_sources(ctx.rng("rx-random"), 20000 if q else 120000, consts)
+        hs = c11.stdlib_expressions(300 if q else 2000, ctx.rng("rx-stdlib"), 30 if q else 100)
+    fams.append(("constants", "random", False,
+                 "number, string and bytes literals of every spelling (token spans of long and escaped literals)", _uniq(cs)))
+    rs = _uniq(rs)
+    fams.append(("random-expressions", "random", False,
+                 "grammar-directed random expressions over the whole fragment (C11's generator: lambda parameter lists, "
+                 "comprehensions, slices, starred, f-strings with specs, redundant parentheses)", rs))
+    sub = rs[:(6000 if q else 40000)]
+    mb = _uniq(_par("mb", sub))
+    fams.append(("random-expressions-multibyte", "random", False,
+                 "the same with identifiers (also inside f-string fields) replaced by multi-byte names and multi-byte text "
+                 "put into string literals", mb))
+    sub = rs[-(4000 if q else 30000):]
+    lay = _uniq(_par("paren-all", sub))
+    lay += _uniq(_par("trivia-all", sub), set(lay))
+    fams.append(("random-expressions-relaid", "random", False,
+                 "random expressions with every sub-expression parenthesised at once / with blanks, line breaks and comments "
+                 "inside every bracket", lay))
+    fams.append(("cpython-stdlib-expressions", "corpus", False,
+                 "expressions harvested from CPython 3.11 standard-library files (ast.unparse-normalised)", _uniq(hs)))
+    return fams
+
+
+_RX_STREAMS = []        # (name, kind, exhaustive, note, [request]) — built by pre_build (needs the real lexer's spans)
+
+
+def build_rexpr_streams(ctx):
+    """sources -> `lexspans e` (real token spans) -> `rexpr` requests; texts the real lexer or parser rejects are
+    dropped (the property quantifies over successfully parsed text); verdicts of the oracle are pre-computed in
+    parallel (memo of `judge_rexpr`, nothing else)"""
+    rc, out, hbin = core.cargo_build(RX_HARNESS["bin"], RX_HARNESS["features"])
+    if rc != 0:
+        return [("harness build for the ranged-parser-model streams", False, out[-300:])]
+    del _RX_STREAMS[:]
+    total = dropped = 0
+    pairs = []
+    for name, kind, exh, note, srcs in rx_families(ctx):
+        sp = core.run_lines([hbin], [f"lexspans e {hexs(s)}" for s in srcs], jobs=8)
+        reqs = [f"rexpr {hexs(s)} {p}" for s, p in zip(srcs, sp) if re.fullmatch(r"[0-9,-]+", p)]
+        outs = core.run_lines([hbin], reqs, jobs=8)
+        keep = [(r, o) for r, o in zip(reqs, outs) if o.startswith("(Expr")]
+        dropped += len(srcs) - len(keep)
+        total += len(keep)
+        pairs += keep
+        _RX_STREAMS.append((name, kind, exh, note, [r for r, _ in keep]))
+    todo = [p for p in dict.fromkeys(pairs) if p not in _RX_VERDICT]
+    if todo:
+        chunks = [todo[i:i + 500] for i in range(0, len(todo), 500)]
+        with ProcessPoolExecutor(refsweep.NPROC) as ex:
+            for ch, vs in zip(chunks, ex.map(_judge_chunk, chunks)):
+                for p, v in zip(ch, vs):
+                    _RX_VERDICT[p] = v
+    return [("requests of the ranged-parser-model streams (real token spans attached)", total > 0,
+             f"{total} requests; {dropped} texts rejected by the real lexer/parser left out")]
+
+
+def _rx_nontrivial(r):
+    try:
+        s = unhex(r.split()[1]).decode("utf-8")
+    except Exception:
+        return False
+    return any(c in s for c in "+-*/%@<>=|&^~([{.,: ")
+
+
 
 
 def pre_build(ctx):
@@ -446,7 +1196,8 @@ def pre_build(ctx):
     for (m, s), o in zip(srcs, outs):
         if o.startswith("(Mod"):
             _LEAN_ITEMS.append((m, s, o))
-    return [("real trees for the rangesOk correspondence stream", len(_LEAN_ITEMS) > 0, f"{len(_LEAN_ITEMS)} trees")]
+    res = [("real trees for the rangesOk correspondence stream", len(_LEAN_ITEMS) > 0, f"{len(_LEAN_ITEMS)} trees")]
+    return res + build_rexpr_streams(ctx)
 
 
 def _sweep(name, items, mode, note, kind="random", with_ref=True):
@@ -484,6 +1235,12 @@ def streams(ctx):
     out.append(Stream("rangesOk-on-real-trees", lreqs, kind="directed",
                       note="driver evaluates PV.C02.viol (= [] iff rangesOk) on the tree the real parser produced; the "
                            "harness confirms the tree is current; the oracle gives the independent Python verdict"))
+    # the ranged twin of the reference parser (Lean) against the real parser, every range of every node
+    if not _RX_STREAMS:
+        build_rexpr_streams(ctx)
+    for name, kind, exh, note, rreqs in _RX_STREAMS:
+        out.append(Stream("ranged-parser-model-" + name, rreqs, kind=kind, exhaustive=exh, harness=RX_HARNESS,
+                          nontrivial=_rx_nontrivial, note=note))
     # sweep with CPython positions
     opts = {"depth": 3, "pep695": False, "range_clean": True}
     nm, ni, ne = (4000, 1000, 1500) if q else (30000, 8000, 12000)
